@@ -15,7 +15,7 @@ CON = ('Writer::commit, any pre-state: data writes at [old free_offset, new free
 
 def cw(name, tiers=('quick', 'thorough')):
     return Kani(M + 'c15_commit_write_ordering_' + name, fns=CW, kind='bounded', bound='head set of one entry; free_offset within 1 MB of FREE_START; generation symbolic',
-                stubs=ST, cap_s=1500, tiers=tiers, covers=(1 if name == 'ok' else None), contract=CON, **RT)
+                stubs=ST, cap_s=1500, tiers=tiers, covers=(1 if name.endswith('ok') else None), contract=CON, **RT)
 
 
 UNITS = [
@@ -24,7 +24,7 @@ UNITS = [
     Kani(M + 'c15_root_checksum_inputs', fns=[Fn(I, 'calc_checksum', r'impl Root')], contract='calc_checksum is a function of exactly (generation, heads, fact_cache, free_offset)', cap_s=900, **RT),
     Kani(M + 'c15_append_at_frontier', fns=[Fn(I, 'append_at', r'impl Writer'), Fn(I, 'ensure_capacity', r'impl Writer')], stubs=ST, covers=1, cap_s=900,
          contract='append_at: the write frontier strictly grows by 4+len; capacity is ensured (fallocate+fsync) before the data write; data_dirty set; on failure the frontier does not move', **RT),
-    cw('ok'), cw('fail_data_sync'), cw('fail_root_write', tiers=('thorough',)), cw('fail_root_sync', tiers=('thorough',)),
+    cw('ok'), cw('grow_ok'), cw('fail_data_sync'), cw('fail_root_write', tiers=('thorough',)), cw('fail_root_sync', tiers=('thorough',)),
 ]
 TRUSTED = ['OS model: pwrite puts exactly the given bytes at the given offset; fdatasync / fsync are durability barriers (File::write_all / sync / fallocate stubbed by logging models)',
            'SipHash collision resistance is NOT claimed: the checksum contract is syntactic (which fields are hashed; validity <=> equality)']
